@@ -122,8 +122,13 @@ static void h_pad(const Args &a) {
     Ev ev("cxh.pad"); ev.s("cls", hcls(id)).n("obj", id); dump(ev, hobj(id)); ev.emit();
 }
 static void h_del(const Args &a) {
-    int id = (int)a.num("obj"); delete hobj(id);
-    Ev ev("cxh.del"); ev.s("cls", hcls(id)).n("obj", id); ev.emit(); obj_del(id);
+    int id = (int)a.num("obj"); HObj *h = hobj(id);
+    // the wrapped library object lives inside *h: run its destructor, then look at the storage
+    const ascon_xof_state_t *st = h->st();
+    h->~HObj();
+    Ev ev("cxh.del"); ev.s("cls", hcls(id)).n("obj", id);
+    if (a.num("dump_raw")) ev.n("wipe", a.num("wipe")).b("raw", (const uint8_t *)st, sizeof(ascon_xof_state_t));
+    ev.emit(); ::operator delete((void *)h); obj_del(id);
 }
 static void h_digest(const Args &a) {
     std::string cls = a.str("cls"); bytes_t d = a.hex("in"); InBuf b(d, a.num("null_if_empty") != 0); OutBuf o(32);
